@@ -445,7 +445,17 @@ pub fn main(args: &Args) {
                 // crossed / surplus / unclosed brackets of every kind (resolve_bracket, next_ex_bracket_match)
                 "CREATE TABLE t (a INT (1, (2] [3), 4))\n", "SELECT (a[1)] FROM t\n", "SELECT a] FROM t\n", "SELECT a FROM t}\n", "SELECT a[1]] FROM t\n",
                 "SELECT f(a, (b + c) FROM t\n", "SELECT a FROM (SELECT b FROM (SELECT c FROM t)) x\n", "SELECT ((a)), [b, [c]] FROM t\n",
-                "ROLLBACK TO SAVEPOINT sp1;\n", "CREATE TRIGGER tr BEFORE INSERT ON t FOR EACH ROW EXECUTE PROCEDURE f();\n"];
+                "ROLLBACK TO SAVEPOINT sp1;\n", "CREATE TRIGGER tr BEFORE INSERT ON t FOR EACH ROW EXECUTE PROCEDURE f();\n",
+                // the unparsable-producing branches of the greedy modes (Sequence / Bracketed / AnyNumberOf / Delimited):
+                // junk first, in the middle and last inside greedy brackets, lists and scripting blocks
+                "SELECT a FROM t WHERE x IN (, 1)\n", "SELECT a FROM t WHERE x IN (1, 2 3)\n", "SELECT a FROM t WHERE x IN (1 2, )\n",
+                "INSERT INTO t VALUES (,)\n", "INSERT INTO t VALUES (1), (, 2)\n", "SELECT a FROM t JOIN u USING (1)\n", "SELECT a FROM t JOIN u USING (a b)\n",
+                "SELECT SUM(a) OVER (, PARTITION BY b) FROM t\n", "SELECT f(a b), a[, 1], ARRAY[, 1] FROM t\n", "SELECT a b c, d FROM t x y z WHERE\n",
+                "IF x THEN SELECT 1; foo; END IF;\n", "IF x THEN foo; SELECT 1; END IF;\n", "WHILE x DO SELECT 1; foo bar; SELECT 2; END WHILE;\n",
+                "LOOP SELECT 1; foo; END LOOP;\n", "BEGIN SELECT 1; foo; END;\n", "FOR r IN (SELECT 1) DO SELECT 2; foo; END FOR;\n",
+                "REPEAT SELECT 1; foo; UNTIL x END REPEAT;\n", "CREATE PROCEDURE p() BEGIN SELECT 1; foo; END;\n",
+                // a Strict bracket whose content ends before a required element
+                "SELECT * FROM t PIVOT(SUM(a))\n", "DROP CAST (a .b);\n"];
             for f in fixed {
                 items.push(Item { dialect: d.clone(), cls: "fixed", sql: f.to_string() });
             }
